@@ -2,7 +2,10 @@ import ShVerif.Base.Hex
 /-
   C34 — model of expand/environ.go: listEnviron_ (stable sort by `name=` key, in-place dedup loop),
   listEnviron.Get (Go's slices.BinarySearchFunc with the two-stage comparison), Each, FuncEnviron.
-  Only caseInsensitive = false is modelled (ListEnviron passes runtime.GOOS == "windows").
+  caseInsensitive = false (what ListEnviron passes on every platform but Windows) is the mode the
+  theorems are about; the `…F` definitions at the end carry the name-folding function of
+  `listEnviron.compare` as a parameter, so that the case-insensitive mode is executable and tied too
+  (ASCII names only: `strings.ToUpper` on non-ASCII text is not modelled).
 -/
 namespace ShVerif.C34
 
@@ -114,6 +117,71 @@ def specGet (pairs : List Bytes) (name : Bytes) : Option Bytes :=
   pairs.foldl (fun acc p =>
     match validPair p with
     | some (n, v) => if n = name then some v else acc
+    | none => acc) none
+
+/-! ### The same code with `listEnviron.compare`'s folding as a parameter
+
+  `fold = id` is the case-sensitive mode above; `fold = upperAscii` is `caseInsensitive = true`
+  restricted to ASCII names.  Note that `compare` folds *both* arguments whole (in `Get`'s
+  too-short branch that is the whole pair, value included). -/
+
+def upperAscii (b : Bytes) : Bytes :=
+  b.map fun c => if 97 ≤ c && c ≤ 122 then c - 32 else c
+
+def cmpF (fold : Bytes → Bytes) (a b : Bytes) : Ordering := cmpBytes (fold a) (fold b)
+
+def leF (fold : Bytes → Bytes) (a b : Bytes) : Bool := cmpF fold (key a) (key b) != .gt
+
+def insertF (fold : Bytes → Bytes) (x : Bytes) : List Bytes → List Bytes
+  | [] => [x]
+  | y :: ys => if leF fold x y then x :: y :: ys else y :: insertF fold x ys
+
+def sortStableF (fold : Bytes → Bytes) (l : List Bytes) : List Bytes := l.foldr (insertF fold) []
+
+def dedupF (fold : Bytes → Bytes) (kept : List Bytes) (last : Bytes) : List Bytes → Option (List Bytes)
+  | [] => some kept.reverse
+  | p :: rest =>
+    match cut p with
+    | none => dedupF fold kept last rest
+    | some (name, _) =>
+      if name = [] then dedupF fold kept last rest
+      else if cmpF fold last name = .eq then
+        match kept with
+        | [] => none
+        | _ :: kept' => dedupF fold (p :: kept') last rest
+      else dedupF fold (p :: kept) name rest
+
+def listEnvironF (fold : Bytes → Bytes) (pairs : List Bytes) : Option (List Bytes) :=
+  dedupF fold [] [] (sortStableF fold pairs)
+
+def getCmpF (fold : Bytes → Bytes) (name pair : Bytes) : Int :=
+  let eqpos := name.length
+  let endpos := name.length + 1
+  if pair.length < endpos then ordToInt (cmpF fold pair name)
+  else
+    let c := ordToInt (cmpF fold (pair.take eqpos) name)
+    if c = 0 then
+      let eq := pair.getD eqpos 0
+      if eq < eqByte then -1 else if eq > eqByte then 1 else 0
+    else c
+
+def getF (fold : Bytes → Bytes) (pairs : List Bytes) (name : Bytes) : GetRes :=
+  if name.contains eqByte then .unset else
+  let x := pairs.toArray
+  let n := x.size
+  let i := bsearch (getCmpF fold name) x (n + 1) 0 n
+  if i < n ∧ getCmpF fold name (x.getD i []) = 0 then
+    let p := x.getD i []
+    let endpos := name.length + 1
+    if endpos ≤ p.length then .val (p.drop endpos) else .panic
+  else .unset
+
+/-- The case-insensitive map built left to right: the last value given for a name equal to `name`
+    up to ASCII case. -/
+def specGetCI (pairs : List Bytes) (name : Bytes) : Option Bytes :=
+  pairs.foldl (fun acc p =>
+    match validPair p with
+    | some (n, v) => if upperAscii n = upperAscii name then some v else acc
     | none => acc) none
 
 end ShVerif.C34
